@@ -93,7 +93,9 @@ CHECKS["C06"] = dict(
     runs=[dict(pkg="server", harness="VfC06_doModify", reach=["end"],
                bounds="doModify/modifyEntry/real RIB: elected primary with FIB-ack on/off, 0-1 held operation, a request of 1-2 symbolic operations (next-hop / group / IPv4 entry; ADD/REPLACE/DELETE; any instance name incl. empty and unknown; symbolic keys and references)"),
           dict(pkg="server", harness="VfC06_handover", reach=["end"],
-               bounds="hand-over of the primary role while an operation is held: one scripted history with symbolic member / next-hop index")]
+               bounds="hand-over of the primary role while an operation is held: one scripted history with symbolic member / next-hop index"),
+          dict(pkg="server", harness="VfC06_halfClose", reach=["end"], validate=0, replay_attempts=30, replay_candidates=6, opts=dict(unwind=16),
+               bounds="real Server.Modify (3 goroutines) on [params, election, ADD] followed at once by a half-close; every schedule with up to 2 pre-emptive context switches at synchronisation points")]
          + _rib(["C06:"], [(h, _B[h]) for h in ("VfRIB_q2", "VfRIB_q3")], _RT),
     assumptions=["response streams are observed at doModify's result channel (the result pump of Modify forwards them unchanged; its scheduling is C10/C11's subject)"],
     level_text="Bounded symbolic execution of doModify + RIB from symbolic requests: per-id verdict counting over the emitted results, RIB-before-FIB order, and held-set bookkeeping (answered xor held) decided for all symbolic keys/references/instance names.",
@@ -175,6 +177,20 @@ CHECKS["C15"] = dict(
     assumptions=["LocalRIB targets only; RemoteRIB (gRPC Get + FromGetResponses) is covered by C07's FromGetResponses check, the transport is outside", "ConcreteXXXProto / candidateRIB / MergeStructInto / DeepCopy / DeepEqual are the models and structural stubs of DESIGN.md section 4"],
     level_text="Bounded symbolic execution of diff/Reconcile over two symbolic RIBs, followed by application of the emitted operations to the real target RIB: success of every operation, convergence to the intended contents and id allocation are decided for all symbolic contents.",
     level_note=_RIBNOTE)
+
+CHECKS["C10"] = dict(
+    runs=[dict(pkg="server", harness="VfC10_modifyCut", reach=["end", "cut-done", "probe-done"], validate=2,
+               bounds="real Server.Modify (3 goroutines) on a scripted session [params, election, ADD, ADD] cut off after 0-4 messages by EOF / Canceled / transport error, or whose Send fails from response 0-3 on; then a probe: new session (negotiate, higher id, ADD), Get, Flush; deterministic schedule"),
+          dict(pkg="server", harness="VfC10_getCut", reach=["end", "cut-done", "probe-done"], validate=2,
+               bounds="real Server.Get over 3 installed next-hops whose stream fails after 0-3 responses; then the same probe (its ADD writes to the instance the abandoned Get was reading)"),
+          dict(pkg="server", harness="VfC10_modifyCutSched", reach=["end"], quick=dict(skip=True), validate=0, replay_attempts=20, opts=dict(unwind=16),
+               bounds="as modifyCut with up to 2 pre-emptive context switches at synchronisation points (channel operations, mutexes, atomics, select)"),
+          dict(pkg="server", harness="VfC10_getCutSched", reach=["end"], quick=dict(skip=True), validate=0, replay_attempts=20, opts=dict(unwind=16),
+               bounds="as getCut with up to 2 pre-emptive context switches")],
+    assumptions=["transport faults are modelled as errors returned by the stream's Recv/Send at the chosen index", "goroutines run as coroutines switching only at synchronisation operations (sound for data-race-free code; C11 checks the lock discipline)",
+                 "a goroutine left blocked without holding a lock is counted but is not a violation of the property as stated"],
+    level_text="Bounded symbolic execution of the real RPC handlers with goroutines, channels and mutexes under the engine's scheduler: every cut point / termination mode is a symbolic choice; a wedge shows up as a deadlock of the probe, which is replayed natively under a watchdog.",
+    level_note="Trusted: go/ssa, gosym scheduler (sync-point granularity, context bound stated per run), z3, rib models.")
 
 NOT_APPLICABLE = {
     "C19": "whole compliance-suite runs over in-memory gRPC against wrapped servers in every order: a whole-program execution through gRPC, testing and reflection; no bounded symbolic encoding within reach (DESIGN.md §8)",
